@@ -163,6 +163,7 @@ _FUNC_SYNONYMS = {
     "numpy.row_stack": "numpy.vstack",
     "numpy.true_divide": "numpy.divide",
     "numpy.amax": "numpy.max", "numpy.amin": "numpy.min",
+    "math.fabs": "numpy.abs",
 }
 _ATTR_ALIASES = {"numpy.shape": "shape", "numpy.ndim": "ndim",
                  "numpy.size": "size", "numpy.transpose": "T"}
@@ -2280,6 +2281,12 @@ class Interp:
                 tm.callee_name(fn.args[1]) in ("operator.attrgetter",
                                                "operator.itemgetter"):
             fn = fn.args[1]       # a getter kept in a module constant
+        if fn.op == "call" and tm.callee_name(fn) == "operator.itemgetter" \
+                and len(fn.args[1]) > 1 and not fn.args[2] and \
+                len(args) == 1 and not kwargs:
+            # itemgetter(a, b, ...)(x) is (x[a], x[b], ...)
+            return T("tuple", *[self.subscript(args[0], k)
+                                for k in fn.args[1]])
         if fn.op == "call" and tm.callee_name(fn) in (
                 "operator.attrgetter", "operator.itemgetter") and \
                 len(fn.args[1]) == 1 and not fn.args[2] and \
